@@ -27,7 +27,8 @@ binding:   (a) every CASE line of TLC (class sequence + the block structure the 
                (TraceChangelog) replays the parser automaton on the classes and must explain every
                observation; at every position where the generator automaton accepts the C04
                observables (no warning, strict returns, str() = text, block contents as written) are
-               verdict observables.  Corrupted control traces must be rejected in every run.
+               verdict observables.  Every validation run also contains two hand-written golden
+               traces (must be accepted) and seven corruptions of them (must be rejected).
 domain:    DESIGN D1 (no str.splitlines() boundary character inside a line), D2 (valid versions); exactly
            one space after ';' and ', ' between key=value items, "urgency" first and lower-case, no
            commas / trailing white space in values, exactly two spaces before the date, blank lines are
@@ -109,20 +110,9 @@ def run(ctx):
     for i in range(ntr):
         _cls, lines, _ = cc.gen_wellformed(rng, rng.choice([6, 12, 25, maxlines]))
         traces.append(cc.record_parse_trace(lines, aea=bool(i % 5 == 0), wf=True, doc_every=7))
-    controls, vcontrols = [], []
-    for how in ("strict", "blocks", "warn", "content", "moved"):
-        for t in traces:
-            c = cc.corrupt_trace(t, how)
-            if c:
-                controls.append(c)
-                if how in ("strict", "warn", "content"):
-                    vcontrols.append(c)
-                break
-    if len(controls) < 4 and not ctx.violations:
-        raise core.MachineryError("could not build the corrupted control traces")
     cfg = "MC_Changelog_c04_quick.cfg" if quick else "MC_Changelog_c04.cfg"
     with ThreadPoolExecutor(max_workers=5) as ex:
-        f_traces = ex.submit(cc.validate, ctx, traces, controls, vcontrols)
+        f_traces = ex.submit(cc.validate, ctx, traces)
         f_bnd = ex.submit(ctx.tlc_must_hold, "Changelog", cfg, workers=4 if quick else 8, want_tags={"CASE"})
         f_neg = [ex.submit(neg_control, ctx, bug, want) for bug, want in NEG_CONTROLS]
         r = f_bnd.result()
@@ -147,6 +137,12 @@ def run(ctx):
                 break
         n += 1
     ctx.extra["cases_replayed"] = n
+    per_class = {}
+    for c in cases:
+        for x in c["t"]:
+            per_class[x] = per_class.get(x, 0) + 1
+    ctx.extra["lines_per_class_in_cases"] = per_class
+    ctx.extra["model_constants"] = {"MaxBlocks": 2 if quick else 3, "MaxBody": 3, "MaxLead": 2, "MaxSep": 2, "Budget": 0}
     ctx.extra["concretizations_per_case"] = k
     mid = cases[len(cases) // 2]
     lines, _ = cc.conc_text(rng, mid["t"], empty_blank=True)
